@@ -13,10 +13,16 @@ OPC targets byte for byte
   numeric `id`), of foreign namespaces and `xmlns` declarations never play a part
   (`sldId_only_relationship_namespaces`, `sldId_unbound`); a Strict deck is read exactly
   like its Transitional spelling (`strict_read_as_transitional`).
-* XLSX `<sheet>`: the relationship id is the last attribute of local name `id` of ANY
-  namespace, so every flavour is read alike (`sheet_rid_any_namespace`,
-  `sheetRef_namespace_blind`); the tag's blindness also lets a later foreign `id`
-  shadow `r:id` (`sheet_rid_last_id_counterexample`).
+* XLSX `<sheet>` (since 10098f7 bound like `<sldId>`: `sheetRefXML.relID()`): the
+  relationship id is the `id` of the Transitional relationships namespace when that is not
+  empty, else the one of the Strict namespace (`sheet_rid_transitional`, `sheet_rid_strict`,
+  `sheet_rid_any_namespace`); `id`s of foreign namespaces or of none and `xmlns` declarations
+  never matter, wherever they stand (`sheet_rid_only_relationship_namespaces`,
+  `sheet_rid_foreign_id_ignored`, `sheet_rid_unbound`); every renaming of the foreign
+  namespaces and the Strict spelling are read alike (`sheetRef_namespace_blind`,
+  `sheetRef_strict_read_as_transitional`). The binding before the fix took the last
+  attribute of local name `id` of ANY namespace, so a later foreign `id` or `xmlns:id`
+  shadowed `r:id` (`sheet_rid_last_id_pinned_counterexample`, about `sheetRefOld`).
 * composition with the part list: `pptx_paths_in_list_order`, `pptx_open_from_markup`,
   `xlsx_open_from_markup` — the presented parts are the declaring ELEMENTS in document
   order, each bound, resolved and looked up.
@@ -138,19 +144,85 @@ example : (∀ a ∈ ([([], lId, [50]), (nsRelT, lId, [114, 55])] : List Attr), 
 
 /-! ## XLSX: `<sheet>` and `<Relationship>` -/
 
-/-- **sheet_rid_any_namespace** — the relationship id of a `<sheet>` is the last attribute
-of local name `id`, whatever its namespace (Transitional, Strict, any other, none) -/
-theorem sheet_rid_any_namespace (pre post : List Attr) (sp v : Str)
-    (hp : ∀ b ∈ post, b.2.1 ≠ lId) :
-    (sheetRef (pre ++ (sp, lId, v) :: post)).2 = v := by
-  unfold sheetRef
-  exact attrField_last [] lId pre post (sp, lId, v) (by simp [takes])
-    (fun b hb => by
-      cases ht : takes [] lId b with
-      | false => rfl
-      | true => exact absurd ((takes_nil lId b).1 ht) (hp b hb))
+/-- since 10098f7 `sheetRefXML.relID()` is `slideIdXML.relID()` word for word -/
+theorem sheetRef_rid (attrs : List Attr) : (sheetRef attrs).2 = sldIdRel attrs := rfl
 
-/-- the same for the sheet name -/
+/-- **sheet_rid_transitional** — whatever else the element carries (`sheetId`, an `id` of the
+Strict, of a foreign or of no namespace, declarations), a non-empty `id` of the Transitional
+relationships namespace that no later such attribute follows IS the relationship id -/
+theorem sheet_rid_transitional (pre post : List Attr) (v : Str) (hv : v ≠ [])
+    (hp : ∀ b ∈ post, ¬ (b.1 = nsRelT ∧ b.2.1 = lId)) :
+    (sheetRef (pre ++ (nsRelT, lId, v) :: post)).2 = v := by
+  rw [sheetRef_rid]; exact sldId_transitional pre post v hv hp
+
+/-- **sheet_rid_strict** — an element without an `id` of the Transitional namespace (every
+`<sheet>` of a Strict workbook) is bound through the Strict namespace -/
+theorem sheet_rid_strict (pre post : List Attr) (v : Str)
+    (hT : ∀ b ∈ pre ++ (nsRelS, lId, v) :: post, ¬ (b.1 = nsRelT ∧ b.2.1 = lId))
+    (hp : ∀ b ∈ post, ¬ (b.1 = nsRelS ∧ b.2.1 = lId)) :
+    (sheetRef (pre ++ (nsRelS, lId, v) :: post)).2 = v := by
+  rw [sheetRef_rid]; exact sldId_strict pre post v hT hp
+
+/-- **sheet_rid_only_relationship_namespaces** — only the `id` attributes of the two
+relationships namespaces play a part: `id`s of foreign namespaces or of none and `xmlns`
+declarations (a prefix named `id` included) can all be dropped -/
+theorem sheet_rid_only_relationship_namespaces (attrs : List Attr) :
+    (sheetRef (attrs.filter isRelId)).2 = (sheetRef attrs).2 := by
+  rw [sheetRef_rid, sheetRef_rid]; exact sldId_only_relationship_namespaces attrs
+
+/-- **sheet_rid_foreign_id_ignored** — the statement the old binding violated: an attribute
+that is not an `id` of a relationships namespace — a foreign `o:id`, a bare `id`, the
+declaration `xmlns:id="…"` — written ANYWHERE on the element leaves the relationship id as
+it is -/
+theorem sheet_rid_foreign_id_ignored (pre post : List Attr) (a : Attr) (ha : isRelId a = false) :
+    (sheetRef (pre ++ a :: post)).2 = (sheetRef (pre ++ post)).2 := by
+  rw [← sheet_rid_only_relationship_namespaces (pre ++ a :: post),
+    ← sheet_rid_only_relationship_namespaces (pre ++ post)]
+  have hn : ¬ isRelId a = true := by simp [ha]
+  rw [List.filter_append, List.filter_cons_of_neg hn, ← List.filter_append]
+
+/-- **sheet_rid_unbound** — a `<sheet>` without an `id` of either relationships namespace
+declares no relationship (the empty id; `parseWorksheets` then tries the default part name),
+whatever other attributes named `id` it has -/
+theorem sheet_rid_unbound (attrs : List Attr) (h : ∀ a ∈ attrs, isRelId a = false) :
+    (sheetRef attrs).2 = [] := by
+  rw [sheetRef_rid]; exact sldId_unbound attrs h
+
+/-- **sheet_rid_any_namespace** (restated after 10098f7; before, the id was the last
+attribute of local name `id` of ANY namespace) — the relationship id of a `<sheet>` is its
+`id` in one of the two relationships namespaces, whichever it is, and whatever `id`s of any
+OTHER namespace, of none, or `xmlns` declarations stand before or after it -/
+theorem sheet_rid_any_namespace (pre post : List Attr) (sp v : Str)
+    (hsp : sp = nsRelT ∨ sp = nsRelS) (hv : v ≠ [])
+    (hfree : ∀ b ∈ pre ++ post, isRelId b = false) :
+    (sheetRef (pre ++ (sp, lId, v) :: post)).2 = v := by
+  have hnot : ∀ ns, ∀ b ∈ pre ++ post, ¬ (b.1 = ns ∧ b.2.1 = lId) ∨ (ns ≠ nsRelT ∧ ns ≠ nsRelS) := by
+    intro ns b hb
+    by_cases h : b.1 = ns ∧ b.2.1 = lId
+    · right
+      have := hfree b hb
+      simp only [isRelId, h.2, h.1, decide_true, Bool.true_and, Bool.or_eq_false_iff,
+        decide_eq_false_iff_not] at this
+      exact this
+    · left; exact h
+  have hT : ∀ b ∈ pre ++ post, ¬ (b.1 = nsRelT ∧ b.2.1 = lId) := fun b hb =>
+    (hnot nsRelT b hb).elim id (fun h => absurd rfl h.1)
+  have hS : ∀ b ∈ pre ++ post, ¬ (b.1 = nsRelS ∧ b.2.1 = lId) := fun b hb =>
+    (hnot nsRelS b hb).elim id (fun h => absurd rfl h.2)
+  rcases hsp with rfl | rfl
+  · exact sheet_rid_transitional pre post v hv
+      (fun b hb => hT b (List.mem_append_right _ hb))
+  · apply sheet_rid_strict pre post v
+    · intro b hb
+      rcases List.mem_append.1 hb with h | h
+      · exact hT b (List.mem_append_left _ h)
+      · rcases List.mem_cons.1 h with rfl | h
+        · intro hh; exact nsRelS_ne_nsRelT hh.1
+        · exact hT b (List.mem_append_right _ h)
+    · exact fun b hb => hS b (List.mem_append_right _ hb)
+
+/-- the sheet name is the last attribute of local name `name` (the tag `name,attr` carries
+no namespace; unchanged by 10098f7) -/
 theorem sheet_name_last (pre post : List Attr) (sp v : Str) (hp : ∀ b ∈ post, b.2.1 ≠ lName) :
     (sheetRef (pre ++ (sp, lName, v) :: post)).1 = v := by
   unfold sheetRef
@@ -167,26 +239,71 @@ theorem attrField_retag_blind (f : Str → Str) (loc : Str) (attrs : List Attr) 
   intro a _ acc
   simp [step, takes]
 
-/-- **sheetRef_namespace_blind** — a workbook is read alike under every renaming of the
-attribute namespaces (Transitional, Strict, anything): name and relationship id of every
-`<sheet>` are the same -/
-theorem sheetRef_namespace_blind (f : Str → Str) (attrs : List Attr) :
-    sheetRef (retag f attrs) = sheetRef attrs := by
-  unfold sheetRef; rw [attrField_retag_blind, attrField_retag_blind]
+/-- a field bound to the namespace `ns` reads a renamed element alike when the renaming
+maps `ns`, and nothing else, to `ns` -/
+theorem attrField_retag_fix (f : Str → Str) (ns loc : Str) (hns : ns ≠ [])
+    (hf : ∀ x, f x = ns ↔ x = ns) (attrs : List Attr) :
+    attrField ns loc (retag f attrs) = attrField ns loc attrs := by
+  rw [attrField_eq, attrField_eq, retag_foldl]
+  apply foldl_congr_mem
+  intro a _ acc
+  have : takes ns loc (f a.1, a.2.1, a.2.2) = takes ns loc a := by
+    rw [Bool.eq_iff_iff, takes_ns ns loc hns, takes_ns ns loc hns]
+    exact and_congr Iff.rfl (hf a.1)
+  unfold step
+  rw [this]
 
-/-- the same for a `<Relationship>` element -/
+/-- **sheetRef_namespace_blind** (restated after 10098f7; before, EVERY renaming of the
+attribute namespaces left a `<sheet>` unchanged, which is what let a foreign `id` in) — a
+workbook is read alike under every renaming of the FOREIGN attribute namespaces, i.e.
+every renaming that keeps the two relationships namespaces apart from the rest: name and
+relationship id of every `<sheet>` are the same -/
+theorem sheetRef_namespace_blind (f : Str → Str) (attrs : List Attr)
+    (hT : ∀ x, f x = nsRelT ↔ x = nsRelT) (hS : ∀ x, f x = nsRelS ↔ x = nsRelS) :
+    sheetRef (retag f attrs) = sheetRef attrs := by
+  unfold sheetRef sheetRel
+  rw [attrField_retag_blind, attrField_retag_fix f nsRelT lId nsRelT_ne_nil hT,
+    attrField_retag_fix f nsRelS lId nsRelS_ne_nil hS]
+
+/-- **sheetRef_strict_read_as_transitional** — rewriting the Transitional relationships
+namespace into the Strict one (what saving as "Strict Open XML Spreadsheet" does to every
+`r:id`) leaves name and relationship id of every `<sheet>` unchanged -/
+theorem sheetRef_strict_read_as_transitional (attrs : List Attr) (hS : ∀ a ∈ attrs, a.1 ≠ nsRelS) :
+    sheetRef (retag toStrict attrs) = sheetRef attrs := by
+  have h1 : (sheetRef (retag toStrict attrs)).1 = (sheetRef attrs).1 :=
+    attrField_retag_blind toStrict lName attrs
+  have h2 : (sheetRef (retag toStrict attrs)).2 = (sheetRef attrs).2 := by
+    rw [sheetRef_rid, sheetRef_rid]; exact strict_read_as_transitional attrs hS
+  exact Prod.ext h1 h2
+
+/-- a `<Relationship>` element is read alike under every renaming of the attribute
+namespaces (its tags `Id,attr` / `Type,attr` / `Target,attr` carry none) -/
 theorem relTriple_namespace_blind (f : Str → Str) (attrs : List Attr) :
     relTriple (retag f attrs) = relTriple attrs := by
   unfold relTriple; rw [attrField_retag_blind, attrField_retag_blind, attrField_retag_blind]
 
-/-- the price of the namespace-blind tag: a later attribute of local name `id` — here the
-declaration of a prefix named `id` on the element — shadows `r:id`
-(`<sheet name="A" r:id="r7" xmlns:id="u"/>`); compared with xlsx.Open by op c18.bind -/
-theorem sheet_rid_last_id_counterexample :
-    (sheetRef [([], lName, [65]), (nsRelT, lId, [114, 55]), (sXmlns, lId, [117])]).2 = [117] := by decide
+/-- **sheet_rid_last_id_pinned_counterexample** — the binding before 10098f7
+(`sheetRefOld`: `RID string xml:"id,attr"`, no namespace) let a later attribute of local
+name `id` — here the declaration of a prefix named `id` on the element — shadow `r:id`
+(`<sheet name="A" r:id="r7" xmlns:id="u"/>`), and likewise a foreign `o:id`; the sheet lost
+its relationship. The repaired binding reads `r7` in both (`sheet_rid_foreign_id_ignored`) -/
+theorem sheet_rid_last_id_pinned_counterexample :
+    (sheetRefOld [([], lName, [65]), (nsRelT, lId, [114, 55]), (sXmlns, lId, [117])]).2 = [117] ∧
+    (sheetRefOld [([], lName, [65]), (nsRelT, lId, [114, 55]), ([1], lId, [120])]).2 = [120] ∧
+    (sheetRef [([], lName, [65]), (nsRelT, lId, [114, 55]), (sXmlns, lId, [117])]).2 = [114, 55] ∧
+    (sheetRef [([], lName, [65]), (nsRelT, lId, [114, 55]), ([1], lId, [120])]).2 = [114, 55] := by decide
 
+/-- non-vacuity: a Strict `<sheet>` with `sheetId`; `r:id` between a bare `id` and a prefix
+named `id`; the renaming of a foreign namespace; an element with foreign `id`s only -/
 example : sheetRef [([], lName, [65]), ([], [115, 104, 101, 101, 116, 73, 100], [57]), (nsRelS, lId, [114, 55])]
     = ([65], [114, 55]) := by decide
+example : (∀ b ∈ ([([], lId, [57])] ++ [(sXmlns, lId, [117])] : List Attr), isRelId b = false) ∧
+    (sheetRef ([([], lId, [57])] ++ (nsRelT, lId, [114, 55]) :: [(sXmlns, lId, [117])])).2 = [114, 55] := by decide
+example : (∀ x, (fun ns : Str => if ns = [1] then [2] else ns) x = nsRelT ↔ x = nsRelT) := by
+  intro x; by_cases h : x = [1]
+  · subst h; simp [nsRelT]
+  · simp [h]
+example : sheetRef [([], lName, [65]), ([], lId, [57]), ([1], lId, [120])] = ([65], []) := by decide
 
 /-! ## composition with the part list -/
 
